@@ -1142,8 +1142,8 @@ package formula
 //@   ensures wfv(result0)
 
 // Equality (C05).
-//@ spec kind4(a any) bool := isNullAny(a) || isbool(a) || isstr(a) || (num(a) && !dnan(nval(a)))
-//@ spec strictEq(a any, b any) bool := (isNullAny(a) && isNullAny(b)) || (isbool(a) && isbool(b) && bval(a) == bval(b)) || (isstr(a) && isstr(b) && sval(a) == sval(b)) || (num(a) && num(b) && dcmp(nval(a), nval(b)) == 0)
+//@ spec kind4(a any) bool := isNullAny(a) || isbool(a) || isstr(a) || num(a)
+//@ spec strictEq(a any, b any) bool := (isNullAny(a) && isNullAny(b)) || (isbool(a) && isbool(b) && bval(a) == bval(b)) || (isstr(a) && isstr(b) && sval(a) == sval(b)) || (num(a) && num(b) && (a == b || (!dnan(nval(a)) && !dnan(nval(b)) && dcmp(nval(a), nval(b)) == 0)))
 //@ spec sameKind(a any, b any) bool := (isNullAny(a) && isNullAny(b)) || (isbool(a) && isbool(b)) || (isstr(a) && isstr(b)) || (num(a) && num(b))
 
 //@ func checkComparable
